@@ -34,6 +34,17 @@ class Draw:
         self.log.append((tag or "str", s))
         return s
 
+    def text(self, maxlen: int, tag: str = "") -> str:
+        """A symbolic string that the code under test strips/iterates: bounded
+        length, characters in ' '..'~' (printable ASCII incl. the blank).
+        Unrestricted code points make str.strip() fork once per Unicode
+        whitespace class and position (measured: >2 400 paths for len<=2)."""
+        s = self.str(maxlen, tag)
+        for ch in s:
+            if not (" " <= ch <= "~"):
+                raise Reject()
+        return s
+
     def int(self, lo: int, hi: int, tag: str = "") -> int:
         if not self._i:
             raise HarnessError("harness: out of symbolic ints")
@@ -174,6 +185,86 @@ class TreeET:
         raise AssertionError("harness: text rendering is not available on TreeET")
 
 
+WS_POOL = ("", " ", "\n", "\n    ", "\t ")
+
+
+class SymText:
+    """Model of the str  left + core + right  where left/right are whitespace
+    only and core neither starts nor ends with whitespace (precondition
+    enforced by :func:`draw_core`).  It stands in for element text so that the
+    parser's ``.strip()`` does not iterate an unbounded symbolic string
+    (CrossHair forks once per Unicode whitespace class and position; measured
+    >2 400 paths for len<=2).  Contract: str.strip() with no argument returns
+    core; truthiness is non-emptiness.  Anything else the code might call is
+    not modelled and fails closed (HarnessError -> ERROR, never a verdict)."""
+
+    def __init__(self, left: str, core: str, right: str):
+        self.left, self.core, self.right = left, core, right
+
+    def strip(self, chars=None):
+        if chars is not None:
+            raise HarnessError("harness: SymText.strip(chars) is not modelled")
+        return self.core
+
+    def __bool__(self):
+        # must be a real bool (a SymbolicBool makes CPython raise TypeError)
+        if self.left or self.right:
+            return True
+        if len(self.core) > 0:
+            return True
+        return False
+
+    def __len__(self):
+        return len(self.left) + len(self.core) + len(self.right)
+
+    def __str__(self):
+        return self.left + self.core + self.right
+
+    def plain(self) -> str:
+        return self.left + self.core + self.right
+
+    def __eq__(self, other):
+        if isinstance(other, SymText):
+            return self.plain() == other.plain()
+        return self.plain() == other
+
+    def __hash__(self):
+        raise HarnessError("harness: SymText is not hashable")
+
+    def __getattr__(self, name):
+        raise HarnessError(f"harness: SymText.{name} is not modelled")
+
+
+def draw_core(d: "Draw", tag: str = "core") -> str:
+    """A symbolic string with no leading/trailing whitespace: empty, one
+    printable-ASCII character, or  c1 + middle + c2  with c1, c2 printable ASCII
+    (no blank) and the middle unbounded and unconstrained.  Built by
+    concatenation because indexing the *last* character of an unbounded symbolic
+    string makes CrossHair enumerate lengths (measured: never exhausts)."""
+    shape = d.int(0, 2, tag + "-shape")
+    if shape == 0:
+        return ""
+    a = d.str(None, tag + "-first")
+    if len(a) != 1 or not ("!" <= a <= "~"):
+        raise Reject()
+    if shape == 1:
+        return a
+    m = d.str(None, tag + "-middle")
+    b = d.str(None, tag + "-last")
+    if len(b) != 1 or not ("!" <= b <= "~"):
+        raise Reject()
+    return a + m + b
+
+
+def as_text(v, left="", right=""):
+    """Wraps a wire text into the SymText model (None stays None)."""
+    if v is None:
+        return None
+    if isinstance(v, SymText):
+        return v
+    return SymText(left, v, right)
+
+
 def clone(e):
     """The tree-level wire: what ET.fromstring(ET.tostring(t)) returns for t
     (contract of DESIGN 4.1, validated against the real pair by
@@ -181,6 +272,12 @@ def clone(e):
     back as absent text."""
     c = TElement(e.tag, dict(e.attrib))
     c.text = e.text if e.text else None
+    if c.text is not None and not MODE.real and not isinstance(c.text, SymText):
+        # precondition of the statements that use the wire: text carries no
+        # surrounding whitespace of its own (C03: "leading/trailing whitespace
+        # excluded"); foreign indentation is added by the harness as pads
+        # (harnesses draw such texts with draw_core)
+        c.text = SymText("", c.text, "")
     for ch in e:
         c._children.append(clone(ch))
     return c
